@@ -13,6 +13,7 @@ def crc32 (bs : Bytes) : Nat := (bs.foldl crcByte 0xFFFFFFFF) ^^^ 0xFFFFFFFF
 
 def jErr : Err → Json
   | .bad7z _ => Json.str "bad7z"
+  | .encrypted7z _ => Json.str "encrypted7z"
   | .other _ => Json.str "other"
 
 def getNats (j : Json) : Except String (List Nat) := do
@@ -29,13 +30,14 @@ structure CodecEntry where
   kind : String
   dict : Option Nat
   inp : Bytes
+  max : Option Nat          -- the decoder's max_length (none = -1)
   out : Option Bytes
 
 def codecOf (tbl : List CodecEntry) : Codec :=
-  { lzmaAlone := fun s => match tbl.find? (fun e => e.kind == "alone" && e.inp == s) with
+  { lzmaAlone := fun s m => match tbl.find? (fun e => e.kind == "alone" && e.max == m && e.inp == s) with
       | some e => e.out
       | none => some [99999]          -- table miss: poisoned answer (no byte is 99999)
-    lzma2Raw := fun d s => match tbl.find? (fun e => e.kind == "raw" && e.dict == d && e.inp == s) with
+    lzma2Raw := fun d s m => match tbl.find? (fun e => e.kind == "raw" && e.dict == d && e.max == m && e.inp == s) with
       | some e => e.out
       | none => some [99999] }
 
@@ -50,8 +52,12 @@ def getCodec (j : Json) : Except String Codec := do
       | .ok v => some <$> v.getNat?
       | .error _ => pure none
     let inp ← natArr e "in"
+    let max ← match e.getObjVal? "max" with
+      | .ok .null => pure none
+      | .ok v => some <$> v.getNat?
+      | .error _ => pure none
     let out ← optNats e "out"
-    pure ({ kind, dict, inp, out } : CodecEntry)
+    pure ({ kind, dict, inp, max, out } : CodecEntry)
   pure (codecOf es)
 
 def variantOf (j : Json) : Variant :=
@@ -81,8 +87,9 @@ def jR (r : R) : Json :=
 def jWrites (ws : List (Str × Bytes)) : Json :=
   Json.arr (ws.map fun (n, b) => Json.arr #[jNats n, jNats b]).toArray
 
-def extractBy (v : Variant) (ids : Ids) (c : Codec) (file : Bytes) (r : R) : Except Err (List (Str × Bytes)) :=
-  if v.fixEmpty then extractAll ids c file r else extractAllOld ids c file r
+def extractBy (v : Variant) (ids : Ids) (c : Codec) (file : Bytes) (r : R) (wanted : Option (List Nat)) :
+    Except Err (List (Str × Bytes)) :=
+  if v.fixEmpty then extractAll ids c file r wanted else extractAllOld ids c file r
 
 /-- op `c10.sevenzip`: SevenZipReader(file) and extractall -/
 def sevenzip (j : Json) : Except String Json := do
@@ -93,11 +100,16 @@ def sevenzip (j : Json) : Except String Json := do
   match parseHeader ids v crc32 c file with
   | .error e => return Json.mkObj [("err", jErr e)]
   | .ok r =>
+    let wanted ← optNats j "wanted"
+    -- the `_decompress_folder` calls of `extractall`: (folder, pack position, pack sizes, max_output)
     let plan := (folderPlan r.packSizes (packPosOf r) r.folders 0 0).filterMap fun (k, _, pos, sizes) =>
       match dictGet r.folderToFiles k with
-      | some _ => some (Json.arr #[jNat k, jNat pos, jNats sizes])
+      | some idxs =>
+        match folderCap r.files wanted idxs with
+        | .ok (some cap) => some (Json.arr #[jNat k, jNat pos, jNats sizes, jOptNat cap])
+        | _ => none
       | none => none
-    let ex := match extractBy v ids c file r with
+    let ex := match extractBy v ids c file r wanted with
       | .ok ws => [("writes", jWrites ws)]
       | .error e => [("xerr", jErr e)]
     return Json.mkObj ([("r", jR r), ("pw", Json.bool (needsPassword ids r)), ("plan", Json.arr plan.toArray)] ++ ex)
@@ -131,6 +143,7 @@ structure NameEntry where
   base : Str
   lower : Str
   sup : Bool
+  back : Bool
 
 def poison : Str × Nat := (S2T.ArchiveLoop.s "<model-asked-for-an-unknown-member>", 0)
 
@@ -138,6 +151,7 @@ def envOf (names : List NameEntry) (exts : List ExtEntry) : Env (Str × Nat) :=
   { consts := S2T.Gen.SevenZip.consts
     supported := fun b => match names.find? (·.base == b) with | some e => e.sup | none => false
     lower := fun b => match names.find? (·.base == b) with | some e => e.lower | none => b
+    routedBack := fun b => match names.find? (·.base == b) with | some e => e.back | none => false
     extract := fun b data path =>
       match exts.find? (fun e => e.path == path) with
       | some e => if e.base == b && e.data == data then ((List.range e.n).map fun k => (path, k), e.raised)
@@ -147,7 +161,8 @@ def envOf (names : List NameEntry) (exts : List ExtEntry) : Env (Str × Nat) :=
 def getEnv (j : Json) : Except String (Env (Str × Nat)) := do
   let ns ← getArr j "names"
   let names ← ns.toList.mapM fun e => do
-    pure ({ base := ← natArr e "base", lower := ← natArr e "lower", sup := ← getBool e "sup" } : NameEntry)
+    pure ({ base := ← natArr e "base", lower := ← natArr e "lower", sup := ← getBool e "sup",
+            back := (e.getObjValAs? Bool "back").toOption.getD false } : NameEntry)
   let xs ← getArr j "exts"
   let exts ← xs.toList.mapM fun e => do
     pure ({ path := ← natArr e "path", base := ← natArr e "base", data := ← natArr e "data",
